@@ -93,6 +93,22 @@ def gen_case(rng: Rng, i: int, tier: str):
         if r.chance(0.2):
             r.shuffle(sc)
         entries = sc + (entries[:1] if r.chance(0.3) else [])
+    elif r.chance(0.25):
+        # directed: a directory reached THROUGH links is used, then a link on the way is re-pointed by a member with another
+        # spelling of the same output path, then the directory is used again: anything remembered about it is stale
+        d = r.pick(["c", "d"])
+        a = r.pick(["a", "l"])
+        b = r.pick(["b", "m"])
+        t_b = r.pick([a + "/..", a, a + "/../" + d + "/..", a + "/."])
+        rp = [{"name": d, "kind": "dir"}, {"name": a, "kind": "symlink", "target": r.pick([d, "./" + d])},
+              {"name": b, "kind": "symlink", "target": t_b}]
+        if r.chance(0.8):
+            rp.append({"name": b + "/" + r.pick(["f", "sub/f"]), "kind": "file", "data": r.pick(["payload-1", ""])})
+        rp.append({"name": r.pick([d + "/../" + a, "./" + a, "q/../" + a, a, a]), "kind": "symlink", "target": r.pick([".", "..", "./.", d + "/..", "${JAIL}"])})
+        rp.append({"name": b + "/" + r.pick(["n", "f", "sub/n", "precious.txt"]), "kind": r.pick(["file", "file", "dir"]), "data": r.pick(["payload-2", ""])})
+        if r.chance(0.15):
+            r.shuffle(rp)
+        entries = rp + (entries[:1] if r.chance(0.3) else [])
     elif r.chance(0.2):
         # directed: the same name several times (py7zr renames later duplicates), including names that canonicalise to the
         # destination itself, and a directory later replaced by a link of the same name
@@ -104,7 +120,7 @@ def gen_case(rng: Rng, i: int, tier: str):
     data_n = sum(1 for e in entries if e["kind"] != "dir")
     split = r.chance(0.4) and data_n > 1
     return {"entries": entries, "multi_folder": split, "dest": r.pick(["abs", "rel", "none"]), "prepop": r.pick([None, None, "files"]),
-            "open": r.pick(["path", "stream"]), "call": r.wpick([(4, "extractall"), (1, "extract")]), "tseed": r.randrange(1 << 30)}
+            "open": r.pick(["path", "stream", "anon"]), "call": r.wpick([(4, "extractall"), (1, "extract")]), "tseed": r.randrange(1 << 30)}
 
 
 def build_image(case, jail, out):
@@ -171,7 +187,7 @@ def run_case(case):
         with fsjail.Jail(scratch, jail) as j:
             with Seams(fs=fs, inline_threads=True):
                 try:
-                    target = rsess.READ_PATH if case["open"] == "path" else SimRaw(fs.get(rsess.READ_PATH), readable=True)
+                    target = rsess.READ_PATH if case["open"] == "path" else SimRaw(fs.get(rsess.READ_PATH), readable=True, anonymous=case["open"] == "anon")
                     z = py7zr.SevenZipFile(target, "r")
                     try:
                         if case["call"] == "extractall":
